@@ -34,6 +34,8 @@ def check(chk, fx):
     lexrules.lenw(chk, fx)
     from .. import ownrules
     ownrules.bufref(chk, fx, 6)       # views into a copied buffer dangle
+    from .. import deporder, goldenreg as _gr
+    deporder.group(chk, fx, "DEPORD", "dependence order of statements (lexer, matcher and driver)", sorted(set(_gr.DEP_GROUPS["LEX"] + _gr.DEP_GROUPS["DRV"])))
     from .. import width
     width.check(chk, fx, classes=("LEN", "DEPTH"), minimum=8)
     idxrule.report(chk, fx, lambda q: q.startswith("ctpg::"), "whole header", 40)
